@@ -1,7 +1,22 @@
 /-
   Props/C06.lean — Whatever was signed verifies: sign/verify completeness.
+
+  * `C06_sign_shape`, `C06_metadata`: what `Sign` appends and what it signs — the metadata of the
+    signer's objects, which is `entryOf` of each object plus the header digest.
+  * `C06_complete`: verification succeeds, and every result reports exactly the task's objects,
+    whenever every signature the tasks look at is *good*: a supplied key validates it, its
+    fingerprint is the validating entity's, and its message decodes to the metadata of the covered
+    objects **of the image being verified** (cryptography and JSON enter only through these
+    hypotheses on the per-blob facts).
+  * `C06_same_view`: that metadata depends on the image only through the protected view — header
+    stream and, per object, relative ID, descriptor stream and content; so a signature made on one
+    image is good on every image presenting the same view (reloaded, relocated, IDs shifted as a
+    group, unprotected header fields changed).
+  * `C06_add_elsewhere`: adding an object outside a group (in particular the signature objects
+    `Sign` itself appends, and co-signatures) leaves the header stream, the group's members and
+    each member's descriptor stream and content as they were — the view the signature covers.
 -/
-import SifVerif.Proofs.Tasks
+import SifVerif.Proofs.Complete
 import SifVerif.Proofs.Readback
 namespace Sif.C06
 
@@ -48,5 +63,82 @@ theorem C06_metadata (s : Img) (gs : GroupSigner) (a : HashAlg) (md : ImageMD)
       intro d hd
       simp only [List.any_eq_true, decide_eq_true_eq, not_exists, not_and, Nat.not_lt] at hany
       exact hany d hd
+
+/-- **completeness**: with good signatures on every task, `Verify` succeeds -/
+theorem C06_complete (s : Img) (km : KeyMaterial) (tasks : List Task)
+    (ods : List RawDesc) (hung : getDescriptors ph s [.noGroup] = .ok ods)
+    (hsig : ∀ d ∈ ods, d.dtype = dtSignature)
+    (hg : ∀ t ∈ tasks, TaskGood H fpOf facts s km t) :
+    ∃ rs, verify H ph fpOf facts s km tasks = .ok rs :=
+  verify_complete H ph fpOf facts s km tasks ods hung hsig hg
+
+/-- … and each signature's result lists exactly the objects of its task -/
+theorem C06_reports_covered (s : Img) (km : KeyMaterial) (g minID : Nat) (cov ods : List RawDesc)
+    (sub : Bool) (hmin : getGroupMinObjectID s g = .ok minID)
+    (hge : ∀ d ∈ cov, minID ≤ d.id) (hlt : ∀ d ∈ cov, d.id < u32Mod) (hnd : (cov.map (·.id)).Nodup)
+    (h1 : ∀ d ∈ ods, d ∈ cov) (h2 : sub = false → ∀ d ∈ cov, d ∈ ods)
+    (sigs : List RawDesc) (G : ∀ sig ∈ sigs, GoodSig H fpOf facts s km minID cov sig) :
+    ∃ rs, verifySigs H fpOf facts s km (.group g ods sub) sigs = .ok rs ∧
+      rs.length = sigs.length ∧ ∀ r ∈ rs, r.verified = ods.map (·.id) :=
+  verifySigs_complete H fpOf facts s km g minID cov ods sub hmin hge hlt hnd h1 h2 sigs G
+
+/-- what `Sign` signs is exactly what a good signature must decode to -/
+theorem C06_signed_is_current (s : Img) (gs : GroupSigner) (a : HashAlg) (md : ImageMD)
+    (h : gs.metadata H s a = .ok md) :
+    ∃ minID, getGroupMinObjectID s gs.g = .ok minID ∧
+      md = { version := 1, hdrDigest := { alg := some a, value := H a (hdrStream s.h) },
+             objects := gs.ods.map (entryOf H s minID a) } := by
+  obtain ⟨minID, hmin, _, hv, hh, ho⟩ := C06_metadata H s gs a md h
+  refine ⟨minID, hmin, ?_⟩
+  cases md
+  simp only at hv hh ho
+  simp [hv, hh, ho, entryOf]
+
+/-- **same protected view ⇒ same signed metadata** -/
+theorem C06_same_view (s0 s : Img) (m0 m : Nat) (a : HashAlg) (cov0 cov : List RawDesc)
+    (hh : hdrStream s0.h = hdrStream s.h) (hlen : cov0.length = cov.length)
+    (hpt : ∀ i (h0 : i < cov0.length) (h : i < cov.length),
+      cov0[i].id - m0 = cov[i].id - m ∧ descStream s0.minIDs cov0[i] = descStream s.minIDs cov[i] ∧
+      objContent s0.st cov0[i] = objContent s.st cov[i]) :
+    ({ version := 1, hdrDigest := { alg := some a, value := H a (hdrStream s0.h) },
+       objects := cov0.map (entryOf H s0 m0 a) } : ImageMD) =
+    { version := 1, hdrDigest := { alg := some a, value := H a (hdrStream s.h) },
+      objects := cov.map (entryOf H s m a) } := by
+  rw [hh, entries_same_view H s0 s m0 m a cov0 cov hlen hpt]
+
+/-- **adding an object outside a group leaves the group's signed view alone**: header stream,
+    membership of every other in-use object, its descriptor stream and its content -/
+theorem C06_add_elsewhere (s : Img) (W : WF s) (P : Placed s) (R : Ranges s) (di : DI) (t : TOpt) (now : Int)
+    (hok : (step sha ph s (.add di t) now).2 = .ok)
+    (x : RawDesc) (i : Nat) (hx : s.rds[i]? = some x) (hu : x.used = true)
+    (hg : x.gid ≠ (di.groupID % u32Mod ||| descrGroupMask)) :
+    (step sha ph s (.add di t) now).1.rds[i]? = some x ∧
+    hdrStream (step sha ph s (.add di t) now).1.h = hdrStream s.h ∧
+    descStream (step sha ph s (.add di t) now).1.minIDs x = descStream s.minIDs x ∧
+    objContent (step sha ph s (.add di t) now).1.st x = objContent s.st x := by
+  have hio : (step sha ph s (.add di t) now).2 ≠ .err .io := by rw [hok]; simp
+  have hcont := (step_frame sha ph s W P R (.add di t) now i x hx hu (fun _ => trivial) hio).1
+  obtain ⟨st', _, hs', hres⟩ := step_store sha ph s (.add di t) now (by simp) hio
+  rw [hs'] at hcont ⊢
+  simp only [plan] at hres hcont ⊢
+  rcases addObjectPlan_cases sha ph s di t now with ⟨calls, e, h⟩ | ⟨calls, d, arch, hi, hp, hw, h⟩
+  · rw [h] at hres; rw [hok] at hres; cases hres
+  · simp only at h
+    rw [h]
+    obtain ⟨off, _, _, _, _, _, _, _, _, hgid, _⟩ := writeDataObjectAt_ok sha _ di _ _ d calls hw
+    have hslot := (findFreeSlot_spec s.rds hi).1
+    have hne : findFreeSlot s.rds ≠ i := by
+      intro e
+      have : s.rds.getD (findFreeSlot s.rds) zeroDesc = x := by
+        rw [e]; simp [List.getD, hx]
+      rw [this, hu] at hslot; cases hslot
+    refine ⟨?_, ?_, ?_, hcont⟩
+    · simp only [commitObject]
+      rw [List.getElem?_set_ne hne]; exact hx
+    · simp [hdrStream, commitObject]
+    · simp only [commitObject, descStream, relID]
+      rw [minLookup_minLower]
+      have : ¬ d.gid = x.gid := by rw [hgid]; exact fun e => hg e.symm
+      simp [this]
 
 end Sif.C06
